@@ -11,6 +11,7 @@ compared with each other on the values they return.
 from __future__ import annotations
 
 import asyncio
+import json
 from concurrent.futures import ProcessPoolExecutor
 
 from .. import core, jgen, jrun
@@ -71,6 +72,169 @@ def _native_work(case):
     return out, n
 
 
+# Native environments: a value is converted to text only by the final concat, so what is converted is the value as it is
+# when the template (block) has run to its end - in a sync environment as much as in an async one (which collects the
+# chunks of the async generator first).  Directed programs in which the conversion order is observable: a list mutated
+# after it was written, and an object whose conversion fails before a later error of another class.
+NATIVE_ORDER = [
+    {"main": "{{ L }}x{% set _ = L.append(1) %}"},
+    {"main": "a{{ L }}b{% set _ = L.append(1) %}{{ L }}"},
+    {"main": "{{ L }}{% set _ = L.append(1) %}x"},
+    {"main": "{{ L }}{{ L }}{{ L }}{% set _ = L.append(1) %}"},
+    {"main": "{% block b %}{{ L }}x{% set _ = L.append(1) %}{% endblock %}"},
+    {"main": "{% block b %}{{ L }}x{% set _ = L.append(1) %}{% endblock %}|{{ self.b() }}|{{ L }}"},
+    {"main": "{% macro m() %}{{ L }}x{% set _ = L.append(1) %}{% endmacro %}{{ m() }}|{{ L }}"},
+    {"main": "{% set v %}{{ L }}x{% set _ = L.append(1) %}{% endset %}{{ v }}|{{ L }}"},
+    {"main": "{% for i in [1, 2] %}{{ L }};{% set _ = L.append(i) %}{% endfor %}"},
+    {"main": "{% extends 'p' %}{% block b %}{{ L }}x{% set _ = L.append(1) %}{{ super() }}{% endblock %}",
+     "p": "<{% block b %}{{ L }}y{% set _ = L.append(2) %}{% endblock %}>{{ L }}"},
+    {"main": "[{% include 'i' %}]{{ L }}", "i": "{{ L }}x{% set _ = L.append(1) %}"},
+    {"main": "{{ bad }}x{{ 1 // 0 }}"},
+    {"main": "x{{ bad }}{% include 'nope' %}"},
+    {"main": "{{ bad }}{{ 1 // 0 }}"},
+    {"main": "{% block b %}x{{ bad }}{{ missing.attr }}{% endblock %}"},
+    {"main": "{% block b %}x{{ bad }}{% endblock %}{{ self.b() }}{{ 1 // 0 }}"},
+    {"main": "{% import 'lib' as mod %}{{ mod }}x{% include 'nope' %}", "lib": "[{{ 1 }}]"},
+]
+
+
+def _native_order_work(i):
+    core.use_repo()
+    from jinja2.nativetypes import NativeEnvironment
+    from jinja2 import DictLoader
+
+    class Bad:
+        def __str__(self):
+            raise ValueError("no text")
+
+    srcs = NATIVE_ORDER[i]
+    res = []
+    for kw, how in (({}, "render"), ({"enable_async": True}, "render"), ({"enable_async": True}, "render_async")):
+        env = NativeEnvironment(loader=DictLoader(srcs), **kw)
+        try:
+            t = env.get_template("main")
+            data = {"L": [], "bad": Bad()}
+            r = t.render(**data) if how == "render" else asyncio.run(t.render_async(**data))
+            res.append(("ok", repr(r)))
+        except Exception as e:  # noqa
+            res.append(("err", type(e).__name__))
+    return i, res
+
+
+# ---- spec/NativeOrder.tla: when native output values become text ---------------------------------
+# TLC enumerates every statement sequence (text / {{ L }} / L.append / {{ bad }} / raising expression / {{ self.b() }}),
+# runs the sync and the async renderer of the model step by step (Pull / Convert / Finish) and prints the result of both;
+# each program is rendered by the real NativeEnvironment in the three cells and compared with the model's result.
+ORDER_OPS = {"txt": "x", "ref": "{{ L }}", "push": "{% set _ = L.append(1) %}", "bad": "{{ bad }}", "div": "{{ 1 // z }}",
+             "call": "{{ self.b() }}"}
+ORDER_CELLS = (("sync", {}, "render"), ("async", {"enable_async": True}, "render"), ("async", {"enable_async": True}, "render_async"))
+
+
+def order_cfg(max_ops, lazy=False):
+    return f"""CONSTANTS
+  MaxOps = {max_ops}
+  Lazy = {"TRUE" if lazy else "FALSE"}
+SPECIFICATION Spec
+INVARIANT TypeOK
+INVARIANT C09_NativeParity
+INVARIANT C09_ConvertedAtTheEnd
+INVARIANT C09_ActionsMatchFunction
+"""
+
+
+def order_sources(o):
+    main = "".join(ORDER_OPS[x] for x in o["main"])
+    body = "".join(ORDER_OPS[x] for x in o["body"])
+    shapes = []
+    if "call" not in o["main"]:
+        shapes.append(("top-level", {"main": main}))
+        shapes.append(("block", {"main": "{% block main %}" + main + "{% endblock %}"}))
+    shapes.append(("child", {"main": "{% extends 'base' %}{% block main %}" + main + "{% endblock %}{% block b %}" + body + "{% endblock %}",
+                             "base": "{% block main %}{% endblock %}"}))
+    return shapes
+
+
+def order_expected(res):
+    k = res["kind"]
+    if k == "err":
+        return ["err", res["cls"]]
+    if k == "none" or (k == "obj" and res["toks"] == ["None"]):
+        return ["none"]
+    if k == "obj":
+        return ["obj", res["toks"][0]]
+    return ["text", "".join("x" if t == "x" else "None" if t == "None" else str([1] * int(t[1:])) for t in res["toks"])]
+
+
+def _order_work(chunk):
+    core.use_repo()
+    from jinja2.nativetypes import NativeEnvironment
+    from jinja2 import DictLoader
+
+    class Bad:
+        def __str__(self):
+            raise ValueError("no text")
+
+    out, n = [], 0
+    for o in chunk:
+        for shape, srcs in order_sources(o):
+            for label, kw, how in ORDER_CELLS:
+                env = NativeEnvironment(loader=DictLoader(srcs), **kw)
+                data = {"L": [], "bad": Bad(), "z": 0}
+                try:
+                    t = env.get_template("main")
+                    r = t.render(**data) if how == "render" else asyncio.run(t.render_async(**data))
+                    got = (["none"] if r is None else ["obj", "L"] if r is data["L"] else ["obj", "bad"] if r is data["bad"]
+                           else ["text", r] if type(r) is str else ["other", repr(r)])
+                except Exception as e:  # noqa
+                    got = ["err", type(e).__name__]
+                n += 1
+                want = order_expected(o[label])
+                if got != want:
+                    out.append({"order": o, "shape": shape, "cell": f"native/{label}/{how}", "want": want, "got": got, "src": srcs})
+    return out, n
+
+
+def start_native_order(quick):
+    """The two TLC runs of NativeOrder.tla, started in the background (they take one core each)."""
+    from concurrent.futures import ThreadPoolExecutor
+    max_ops = 4 if quick else 5
+    bg = ThreadPoolExecutor(max_workers=2)
+    f = bg.submit(core.run_tlc, "C09", "NativeOrder", order_cfg(max_ops), name="native-order", coverage=True, workers=1, timeout=3000)
+    fl = bg.submit(core.run_tlc, "C09", "NativeOrder", order_cfg(3, lazy=True), name="native-order-lazy", workers=1, args=["-continue"])
+    bg.shutdown(wait=False)
+    return max_ops, f, fl
+
+
+def check_native_order(ck, started):
+    max_ops, f, fl = started
+    r, rl = f.result(), fl.result()
+    ck.add_tlc(r, f"NativeOrder: every statement sequence <= {max_ops} (when native output values become text)")
+    ck.require_coverage(r, ["Pull", "Convert", "Finish", "Report"])
+    ck.tlc_runs.append({"spec": "NativeOrder: sync native_concat converts values as they are pulled (shape of the pinned tree; negative control)",
+                        "distinct_states": rl.distinct, "states_generated": rl.generated, "depth": rl.depth, "wall_s": round(rl.wall, 2)})
+    ck.extra["model_with_lazy_sync_concat_violates"] = sorted(set(rl.invariant_violated))
+    if "C09_NativeParity" not in rl.invariant_violated:
+        raise core.MachineryError("NativeOrder.tla: the lazily converting sync model should violate C09_NativeParity")
+    if not r.ok:
+        return
+    progs = [json.loads(ln)["order"] for ln in sorted(set(r.printed())) if ln.startswith('{"order"')]
+    if len(progs) < 600:
+        raise core.MachineryError("NativeOrder.tla printed too few programs")
+    if any(p["sync"] != p["async"] for p in progs):
+        raise core.MachineryError("NativeOrder.tla printed diverging results although C09_NativeParity holds")
+    n = 0
+    with ProcessPoolExecutor(max_workers=16) as ex:
+        for mism, k in ex.map(_order_work, list(core.chunks(progs, 100))):
+            n += k
+            for m in mism:
+                ck.violation({"kind": "native-order", **m},
+                             f"{m['cell']} ({m['shape']}) of {m['src']['main']!r}: NativeOrder.tla gives {m['want']}, jinja2 returns {m['got']}",
+                             {"kind": "native-order", "cell": m["cell"]})
+    ck.traces += n
+    ck.extra["native_order_programs"] = len(progs)
+    ck.extra["native_order_renders_compared_with_spec"] = n
+
+
 def _diff_work(chunk):
     """Filters outside the interpreter spec: the spec has no async notion, so for them the relation itself is
     checked - the same template must give the same text / error class in a sync and in an async environment."""
@@ -125,6 +289,7 @@ EXTRA_DIFF = [
 
 def run(ck):
     quick = ck.tier == "quick"
+    order_tlc = start_native_order(quick)
     cases = jgen.corpus(ck.seed + 9, *((100, 60, 0, 120) if quick else (3000, 1500, 0, 3000)))
     # (include/import sets use template modules: `import` in async mode goes through
     #  make_module_async; they are part of the corpus in the thorough tier and via `mod` below)
@@ -185,6 +350,16 @@ def run(ck):
                     fp = {"kind": "native-async-render-typeerror"}
                 ck.violation({"kind": "native", **m}, f"{m['how']} case {m['case']} data#{m['d']}: sync native returns "
                              f"{m['sync']}, async returns {m['got']} :: {str(m['src'])[:200]}", fp)
+    with ProcessPoolExecutor(max_workers=8) as ex:
+        for i, res in ex.map(_native_order_work, range(len(NATIVE_ORDER))):
+            total += 2
+            for got, how in ((res[1], "native/async/render"), (res[2], "native/async/render_async")):
+                if got != res[0]:
+                    m = {"case": f"order{i}", "d": 1, "how": how, "sync": res[0], "got": got, "src": NATIVE_ORDER[i]}
+                    ck.violation({"kind": "native", **m}, f"{how} directed program {i}: sync native returns {res[0]}, async returns "
+                                 f"{got} :: {NATIVE_ORDER[i]}", {"kind": "native-async-differs", "family": "conversion-order", "prog": i})
+    ck.extra["native_conversion_order_programs"] = len(NATIVE_ORDER)
+    check_native_order(ck, order_tlc)
     ck.traces += total
     ck.extra["native_cells_compared"] = total
     ck.extra["programs"] = len(cases)
@@ -193,6 +368,21 @@ def run(ck):
 
 def replay(ck, rec):
     c = rec["case"]
+    if c.get("kind") == "native-order":
+        mism, _ = _order_work([c["order"]])
+        for m in mism:
+            ck.violation({"kind": "native-order", **m},
+                         f"{m['cell']} ({m['shape']}) of {m['src']['main']!r}: NativeOrder.tla gives {m['want']}, jinja2 returns {m['got']}",
+                         {"kind": "native-order", "cell": m["cell"]})
+        return
+    if c.get("kind") == "native" and str(c.get("case", "")).startswith("order"):
+        i, res = _native_order_work(int(str(c["case"])[5:]))
+        for got, how in ((res[1], "native/async/render"), (res[2], "native/async/render_async")):
+            if got != res[0]:
+                ck.violation({"kind": "native", "case": c["case"], "d": 1, "how": how, "sync": res[0], "got": got, "src": NATIVE_ORDER[i]},
+                             f"{how} directed program {i}: sync native returns {res[0]}, async returns {got} :: {NATIVE_ORDER[i]}",
+                             {"kind": "native-async-differs", "family": "conversion-order", "prog": i})
+        return
     if c.get("kind") == "native":
         raise core.MachineryError("native replays are re-run by the full check")
     case = c["case"]
